@@ -25,9 +25,11 @@ struct Entry {
     align: usize,
     serial: u64,
     state: u8, // 0 empty, 1 live, 2 released (quarantined)
+    tid: u32,
 }
 
-const EMPTY: Entry = Entry { addr: 0, size: 0, align: 0, serial: 0, state: 0 };
+const EMPTY: Entry = Entry { addr: 0, size: 0, align: 0, serial: 0, state: 0, tid: 0 };
+static NEXT_TID: std::sync::atomic::AtomicU32 = std::sync::atomic::AtomicU32::new(1);
 
 static LOCK: AtomicBool = AtomicBool::new(false);
 static mut TABLE: [Entry; CAP] = [EMPTY; CAP];
@@ -53,6 +55,19 @@ thread_local! {
     static TRACK: Cell<u32> = const { Cell::new(0) };
     // set while this thread holds the table lock: (de)allocations made meanwhile bypass the table
     static HOLDING: Cell<bool> = const { Cell::new(false) };
+    static TID: Cell<u32> = const { Cell::new(0) };
+}
+
+/// A small per-thread id (blocks are attributed to the thread that allocated them).
+#[inline]
+pub fn tid() -> u32 {
+    TID.try_with(|t| {
+        if t.get() == 0 {
+            t.set(NEXT_TID.fetch_add(1, Ordering::Relaxed));
+        }
+        t.get()
+    })
+    .unwrap_or(0)
 }
 
 #[inline]
@@ -109,7 +124,7 @@ unsafe fn insert(addr: usize, size: usize, align: usize) {
             if e.state == 0 {
                 USED.fetch_add(1, Ordering::Relaxed);
             }
-            *e = Entry { addr, size, align, serial: SERIAL.fetch_add(1, Ordering::Relaxed), state: 1 };
+            *e = Entry { addr, size, align, serial: SERIAL.fetch_add(1, Ordering::Relaxed), state: 1, tid: tid() };
             return;
         }
         i = (i + 1) & (CAP - 1);
@@ -256,16 +271,17 @@ pub fn serial_now() -> u64 {
     SERIAL.load(Ordering::Relaxed)
 }
 
-/// Every tracked block with serial >= `since` (linear scan), ordered by serial.
+/// Every block tracked for the calling thread with serial >= `since` (linear scan), by serial.
 #[allow(static_mut_refs)]
 pub fn blocks_since(since: u64) -> Vec<Block> {
     let _s = Bracket::suspend();
     let mut out = Vec::new();
+    let me = tid();
     {
         let _g = Guard::lock();
         unsafe {
             for e in TABLE.iter() {
-                if e.state != 0 && e.serial >= since {
+                if e.state != 0 && e.serial >= since && e.tid == me {
                     out.push(Block { addr: e.addr, size: e.size, align: e.align, serial: e.serial, live: e.state == 1 });
                 }
             }
